@@ -4,9 +4,10 @@
 (* try_last, try_left/right_most_traversal, try_next, try_prior, try_seek, *)
 (* the re-seek loops of next()/prior() and the scan loops, one action per  *)
 (* scheduling point (hook), transcribed against the recorded signatures of *)
-(* the real code (tools/olcart.py).  Inner nodes of the two sorted classes *)
-(* (inode_4, inode_16) only: a child index is the rank of its key byte, so *)
-(* in-place insertions/removals shift what an index on the stack means.    *)
+(* the real code (tools/olcart.py).  All four node classes: in the sorted   *)
+(* ones (inode_4, inode_16) a child index is the rank of its key byte, so  *)
+(* in-place insertions/removals shift what an index on the stack means; in *)
+(* inode_48 / inode_256 it is the key byte itself.                         *)
 (*                                                                         *)
 (* Property C09: ScanBounded, ScanOrdered, ScanValueWasHeld (no phantoms), *)
 (* ScanComplete for keys present during the whole scan.                    *)
@@ -40,11 +41,24 @@ NewIt == [on |-> TRUE, seen |-> <<>>, always |-> DOMAIN abs, ever |-> {<<k, abs[
           stk |-> <<>>, rs |-> <<>>, sk |-> <<>>, sfwd |-> TRUE, match |-> FALSE,
           par |-> 0, pv |-> 0, node |-> 0, nv |-> 0, ent |-> 0, cur |-> <<>>, child |-> 0]
 
-\* sorted node: rank <-> key byte
+\* A child index on the iterator stack.  inode_4 / inode_16 keep their key bytes sorted and the index is the
+\* RANK of the key byte (1-based here, 0 = none), so in-place insertions and removals shift what an index means.
+\* inode_48 / inode_256 are indexed by the key byte itself (child_indexes[256] / children[256]): the index is the
+\* key byte + 1 (0 = none) and stays meaningful whatever is added or removed around it.
 Cnt(n) == Cardinality(DOMAIN nodes[n].ch)
+Sorted(n) == nodes[n].cls <= 2
+MinB(S) == CHOOSE b \in S : \A x \in S : b <= x
+MaxB(S) == CHOOSE b \in S : \A x \in S : b >= x
 NthByte(n, i) == CHOOSE b \in DOMAIN nodes[n].ch : Cardinality({x \in DOMAIN nodes[n].ch : x < b}) = i - 1
-ChildAt(n, i) == IF i >= 1 /\ i <= Cnt(n) THEN nodes[n].ch[NthByte(n, i)] ELSE 0
-RankOf(n, b) == Cardinality({x \in DOMAIN nodes[n].ch : x < b}) + 1
+ChildAt(n, i) == IF Sorted(n) THEN (IF i >= 1 /\ i <= Cnt(n) THEN nodes[n].ch[NthByte(n, i)] ELSE 0)
+                 ELSE (IF i >= 1 /\ (i - 1) \in DOMAIN nodes[n].ch THEN nodes[n].ch[i - 1] ELSE 0)
+RankOf(n, b) == IF Sorted(n) THEN Cardinality({x \in DOMAIN nodes[n].ch : x < b}) + 1 ELSE b + 1
+FirstIdx(n) == IF Sorted(n) THEN 1 ELSE MinB(DOMAIN nodes[n].ch) + 1
+LastIdx(n) == IF Sorted(n) THEN Cnt(n) ELSE MaxB(DOMAIN nodes[n].ch) + 1
+NextIdx(n, ci) == IF Sorted(n) THEN (IF ci + 1 <= Cnt(n) THEN ci + 1 ELSE 0)
+                  ELSE LET S == {b \in DOMAIN nodes[n].ch : b + 1 > ci} IN IF S = {} THEN 0 ELSE MinB(S) + 1
+PriorIdx(n, ci) == IF Sorted(n) THEN (IF ci - 1 >= 1 /\ ci - 1 <= Cnt(n) THEN ci - 1 ELSE 0)
+                   ELSE LET S == {b \in DOMAIN nodes[n].ch : b + 1 < ci} IN IF S = {} THEN 0 ELSE MaxB(S) + 1
 
 Push(I, e) == [I EXCEPT !.stk = <<e>> \o @]
 Pop(I) == [I EXCEPT !.stk = Tail(@)]
@@ -170,7 +184,7 @@ T2(t) == /\ Pcs(t, {"t2"})
 T3(t) == Pcs(t, {"t3"}) /\ RetB(t, it[t], lk[it[t].node] = it[t].nv) /\ Keep
 \* begin() / last() of the inner node (field segment)
 T4(t) == /\ Pcs(t, {"t4"})
-         /\ LET I == it[t] IN Goto(t, [I EXCEPT !.ent = IF I.sfwd THEN 1 ELSE Cnt(I.node)], "t5")
+         /\ LET I == it[t] IN Goto(t, [I EXCEPT !.ent = IF I.sfwd THEN FirstIdx(I.node) ELSE LastIdx(I.node)], "t5")
          /\ Keep
 \* check; push the entry
 T5(t) == /\ Pcs(t, {"t5"})
@@ -211,8 +225,7 @@ N_lu(t) == /\ Pcs(t, {"n_lu"})
 \* inode->next / prior (field segment)
 N_rd(t) == /\ Pcs(t, {"n_rd"})
            /\ LET I == it[t]  e == Top(I)
-                  nx == IF I.sfwd THEN (IF e.ci + 1 <= Cnt(e.n) THEN e.ci + 1 ELSE 0)
-                                  ELSE (IF e.ci - 1 >= 1 /\ e.ci - 1 <= Cnt(e.n) THEN e.ci - 1 ELSE 0) IN
+                  nx == IF I.sfwd THEN NextIdx(e.n, e.ci) ELSE PriorIdx(e.n, e.ci) IN
               Goto(t, [I EXCEPT !.ent = nx], "n_chk")
            /\ Keep
 \* check after the read
